@@ -264,7 +264,7 @@ def catalogue(tier, flavour="general"):
     branch_shapes = []
     for s in subs2:
         branch_shapes.append(("alt", [s], None))
-        for bounds in (((0, None), (1, None), (2, 2), (1, 2)) if thorough else ((0, None), (1, None))):
+        for bounds in (((0, None), (1, None), (2, None), (2, 2), (1, 2)) if thorough else ((0, None), (1, None), (2, None))):
             branch_shapes.append(("rep", [s], bounds))
     for s1, s2 in itertools.product(subs1, repeat=2):
         branch_shapes.append(("alt", [s1, s2], None))
@@ -881,20 +881,7 @@ def cached_judgement(F, tier, query="exhaustive"):
 # number of catalogue expressions in the family; the ceilings are the numbers counted on the pinned tree: a family
 # that grows is a new violation (`group-grew:`), so a different defect that only shows inside a known family is not
 # hidden.  (query, group, tier) -> ceiling
-GROUP_CEILINGS = {
-    ("exhaustive", "optional-repetition/matches-the-empty-path", "quick"): 26,
-    ("exhaustive", "optional-repetition/matched-path-not-empty", "quick"): 8,
-    ("exhaustive", "optional-repetition/matches-the-empty-path", "thorough"): 37,
-    ("exhaustive", "optional-repetition/matched-path-not-empty", "thorough"): 23,
-    ("depth", "lower-bound-above-actual/tree-wildcard-inside-a-branch", "quick"): 14,
-    ("depth", "lower-bound-above-actual/tree-wildcard-inside-a-branch", "thorough"): 200,
-    ("partition", "rooted-through-a-branch/law+postfix-rooted+not-idempotent", "quick"): 45,
-    ("partition", "rooted-through-a-branch/law+postfix-rooted+not-idempotent", "thorough"): 632,
-    ("partition", "rooted-through-a-branch/postfix-rooted", "thorough"): 8,
-}
-# the attribution to the known C01 encoding finding has a ceiling too
-EXPLAINED_CEILINGS = {("partition", "rooted-first-tree-encoding", "quick"): 251, ("partition", "rooted-first-tree-encoding", "thorough"): 251,
-                      ("semantics", "rooted-first-tree-encoding", "quick"): 285, ("semantics", "rooted-first-tree-encoding", "thorough"): 285}
+from ..refs.catalogue_ceilings import GROUP_CEILINGS, EXPLAINED_CEILINGS  # noqa: E402
 
 
 def group_of(query, r):
